@@ -28,7 +28,7 @@ OBJ_FAMILIES = {
 API_TARGETS = ["api:%s:%s" % (o, f) for o, fs in OBJ_FAMILIES.items() for f in fs]
 EAPI_TARGETS = ["eapi:nsp", "eapi:ssock", "eapi:csock"]
 
-LIN_TARGETS = ["ls", "es", "api:mgr:Ping", "api:csock:Connect", "api:nsp:Connection", "eapi:nsp", "eapi:csock"]
+LIN_TARGETS = ["ls", "es", "api:mgr:Ping", "api:csock:Connect", "api:nsp:Connection", "eapi:nsp"]
 KEY_LIFECYCLE = "off-by-func-identity:lifecycle"
 KEY_CLOSURES = "closures-share-code-pointer"
 
@@ -712,7 +712,7 @@ def run(ctx):
     random_suite(ctx, vh, batch, st, "api", API_TARGETS + EAPI_TARGETS, 15 if q else 300, 30)
     reent_suite(ctx, vh, batch, st, "stores", ["ls", "es"], 150 if q else 2000)
     reent_suite(ctx, vh, batch, st, "api", API_TARGETS + EAPI_TARGETS, 5 if q else 100)
-    lin_suite(ctx, vh, batch, st, LIN_TARGETS, 25 if q else 250)
+    lin_suite(ctx, vh, batch, st, LIN_TARGETS, 20 if q else 250)
     race_suite(ctx, vh, batch, st, 10000, 16, 1 if q else 5)
     batch.run(ctx, "c18", jobs=8 if q else 14)
     st.refine.run(ctx, "c18_exact", jobs=8)
